@@ -2,9 +2,10 @@ import RgVerif.Model.Gitignore
 /-
 `GitignoreBuilder::add`: how an ignore FILE becomes the lines handed to `add_line`.
 `BufReader::lines()`: chunks up to and including each `\n`; a chunk must be valid UTF-8 (`str::from_utf8`), otherwise
-the iterator yields an error and `add` stops reading (`break`) — the lines before it stay, the lines after it are
-never seen; a trailing `\n`, and a `\r` directly before it, are removed.  Nothing else: no byte order mark handling,
-a `\r` at the end of a file that does not end in `\n` stays.
+the iterator yields an `InvalidData` error: that line is lost, the loop `continue`s with the next one (since 234ccee;
+before that `add` stopped reading there).  A trailing `\n`, and a `\r` directly before it, are removed.  On the line
+with index 0 one leading U+FEFF is dropped (since e983cb6, like git's `skip_utf8_bom`).  A `\r` at the end of a file
+that does not end in `\n` stays.
 -/
 namespace RgVerif.Gitignore
 open RgVerif
@@ -57,15 +58,20 @@ def stripEol (l : List Nat) : List Nat :=
     if l.getLast? == some 13 then l.dropLast else l
   else l
 
-/-- the `for line in rdr.lines()` loop of `GitignoreBuilder::add` up to its `break` -/
-def linesUntilError : List Bytes → List (List Nat)
-  | [] => []
-  | ch :: rest =>
+/-- `line.strip_prefix('\u{FEFF}')` on the line with index 0 -/
+def stripBomAt (i : Nat) (l : List Nat) : List Nat :=
+  if i == 0 && l.head? == some 0xFEFF then l.drop 1 else l
+
+/-- the `for (i, line) in rdr.lines().enumerate()` loop of `GitignoreBuilder::add`: a chunk that is not UTF-8 is
+skipped (it still counts for `i`) -/
+def linesFrom : Nat → List Bytes → List (List Nat)
+  | _, [] => []
+  | i, ch :: rest =>
     match decodeUtf8 ch.length ch with
-    | none => []
-    | some cps => stripEol cps :: linesUntilError rest
+    | none => linesFrom (i + 1) rest
+    | some cps => stripBomAt i (stripEol cps) :: linesFrom (i + 1) rest
 
 /-- the lines of an ignore file as `add_line` receives them -/
-def rgReadLines (content : Bytes) : List (List Nat) := linesUntilError (readChunks content [])
+def rgReadLines (content : Bytes) : List (List Nat) := linesFrom 0 (readChunks content [])
 
 end RgVerif.Gitignore
